@@ -72,7 +72,7 @@ def openTextgrid(
         with io.open(fnFullPath, "r", encoding="utf-16") as fd:
             data = fd.read()
     except UnicodeError:
-        with io.open(fnFullPath, "r", encoding="utf-8") as fd:
+        with io.open(fnFullPath, "r", encoding="utf-8-sig") as fd:
             data = fd.read()
 
     tgAsDict = textgrid_io.parseTextgridStr(data, includeEmptyIntervals)
